@@ -91,7 +91,13 @@ LONGLINE = st.builds(lambda c, k: c * k, st.sampled_from(["x", "ü", "€", "a b
 
 @st.composite
 def st_op(draw, feats):
-    kind = draw(st.sampled_from(["feat"] * 7 + ["log", "log", "table", "meta"]))
+    kind = draw(st.sampled_from(["feat"] * 7 + ["log", "log", "table", "meta", "bad"]))
+    if kind == "bad":
+        # a call that is rejected as a whole (documented ValueError); the writer
+        # is used again afterwards
+        return {"op": "bad", "what": draw(st.sampled_from(
+            ["meta-key", "meta-section", "feature-name", "empty"])),
+            "f": draw(st.sampled_from(feats))}
     if kind == "feat":
         f = draw(st.sampled_from(feats))
         op = {"op": "feat", "f": f, "k": draw(st.sampled_from(
@@ -380,6 +386,33 @@ def _run(spec, rec, d):
                         model.logs[nm] = model.logs[nm] + ll
                         log_appends[nm] = log_appends.get(nm, 1) + 1
                         rec.cls("log-append")
+                elif op["op"] == "bad":
+                    what = op["what"]
+                    if what == "empty" and (mode == "replace"
+                                            or _kind(op["f"]) != "scalar"):
+                        continue
+                    marker = "vf-must-not-appear"
+                    try:
+                        if what == "meta-key":
+                            hw.store_metadata({"experiment": {"sample": marker},
+                                               "setup": {"no such key": 1}})
+                        elif what == "meta-section":
+                            hw.store_metadata({"experiment": {"sample": marker},
+                                               "no such section": {"flow rate": 1}})
+                        elif what == "feature-name":
+                            hw.store_feature("vf_not_a_feature", np.arange(3.0))
+                        else:
+                            hw.store_feature(op["f"], np.zeros(0))
+                    except ValueError:
+                        rec.cls("rejected-call:" + what)
+                    else:
+                        rec.skip("rejected-call-accepted:" + what)
+                        continue
+                    rec.check(hw.h5file.attrs.get("experiment:sample") != marker
+                              and "vf_not_a_feature" not in hw.h5file.get("events", {}),
+                              f"rejected-call/partial-write/{what}",
+                              "a call that raised ValueError left part of its "
+                              "arguments in the file")
                 elif op["op"] == "table":
                     nm = op["name"]
                     if nm in model.tables:
